@@ -164,7 +164,9 @@ class C15(Prop):
         if any(l[0] == "td" for l in log[done:]):
             fails.append("a teardown callback ran after run_application had returned / raised")
         want = documented_exit(case["ending"])
-        if impl["outcome"] != want:
+        if any(l[0] == "stoppedByGuard" for l in log):
+            fails.append(f"the application was still running after 10^6 ticks (stopped by the harness); documented ending: {want}")
+        elif impl["outcome"] != want:
             fails.append(f"the application ended with {impl['outcome']}, documented: {want}")
         nsvc = sum(c.get("svc", 0) for k, c in enumerate(case["comps"]))
         stopped = sum(1 for l in log if l[0] == "svcStopped")
